@@ -148,7 +148,8 @@ def run(res, tier, seed, wd, replay=None):
     res.cov["rule"] = "evaluations = trace events judged by HolderProp; one trace = one fresh holder with 2-4 threads; scheduled traces are distinct TLC interleavings"
     res.add_tlc({"distinct": v["states"], "generated": v["states"]})
     res.sample({"kind": "trace excerpt (real code, scheduled)", "events": read_ndjson(traces[0])[1:16]})
-    selftest(res, trR, wd)
+    if not v["bad"]:
+        selftest(res, trR, wd)
     log("[verdict] %d events of %d traces validated by TLC against HolderProp: %d flagged rules" % (nev, ntr, len(v["bad"])))
 
 
